@@ -859,6 +859,27 @@ def extract_q_sig_kwargs(repo):
     return sorted(out)
 
 
+def extract_upgrade_method_identity_tests(repo):
+    """every comparison of an upgrade method with one of the UpgradeMethod constants (signature.py,
+    evolve_app_task.py, evolver.py, diff.py) is by value (==, !=): a value read back from the database is an equal
+    string, not the same object.  Returns the comparisons that go by identity (`is` / `is not` against anything but
+    None)."""
+    bad = []
+    for rel in ('django_evolution/signature.py', 'django_evolution/evolve/evolve_app_task.py',
+                'django_evolution/evolve/evolver.py', 'django_evolution/diff.py'):
+        tree = ast.parse(_src(repo, rel))
+        for n in ast.walk(tree):
+            if isinstance(n, ast.Compare):
+                txt = ast.unparse(n)
+                if 'upgrade_method' not in txt and 'UpgradeMethod' not in txt:
+                    continue
+                operands = [n.left] + list(n.comparators)
+                for op, a, b in zip(n.ops, operands, operands[1:]):
+                    if isinstance(op, (ast.Is, ast.IsNot)) and 'None' not in (ast.unparse(a), ast.unparse(b)):
+                        bad.append('%s: %s' % (rel.split('/')[-1], txt))
+    return sorted(set(bad))
+
+
 def extract_found_reset_per_label(repo):
     """get_app_mutations: the flag that says "an SQL file was found for this label" is set to False INSIDE the loop
     over the labels (once per label), so that a label without an SQL file falls back to its Python module whatever
@@ -1142,6 +1163,10 @@ def regenerate(repo, outdir):
     flags['found_reset_per_label'] = frl
     parts.append('/-- get_app_mutations forgets, for every label, whether an earlier label was shipped as an SQL file -/')
     parts.append('def foundResetPerLabel : Bool := ' + ('true' if frl else 'false'))
+    umi = extract_upgrade_method_identity_tests(repo)
+    flags['upgrade_method_identity_tests'] = umi
+    parts.append('/-- comparisons of an upgrade method with a constant that go by object identity (there should be none) -/')
+    parts.append('def upgradeMethodIdentityTests : List String := ' + lean_list(lean_str(x) for x in umi))
     qsk = extract_q_sig_kwargs(repo)
     flags['q_sig_kwargs'] = qsk
     parts.append('/-- QSerialization.serialize_to_signature: the keyword arguments written for a Q object, with their tests -/')
